@@ -84,7 +84,7 @@ class Run:
         self.trusted = []
         self.assumptions = []
         self.extra = {}
-        self.explanation = ""
+        self.explanation = "the check did not reach the point where it states its rules (see checker_errors)"
         self.errors = []
         self.seed = int(os.environ.get("VERIF_SEED", "0") or 0)
         self.argv = argv or sys.argv
